@@ -24,6 +24,7 @@ from concurrent.futures import ProcessPoolExecutor, as_completed
 VERIF_DIR = os.path.dirname(os.path.dirname(os.path.abspath(__file__)))
 REPO_DIR = os.environ.get("VERIF_REPO", "/repo")
 DEFAULT_SEED = 20261002
+COLLECT_DIGESTS = False  # per-run digests (case + event log + verdict) are only collected for the determinism self-test
 MAX_REPORTED = 6  # violating signature classes minimised and reported per invocation (all are counted)
 HIST_CAP = 4_000_000  # exact distinct-history counting stops here (reported as a lower bound)
 
@@ -178,7 +179,8 @@ def _worker_batch(args):
                                           size=len(jdump(case))))
         if len(agg["samples"]) < 2 and v == OK:
             agg["samples"].append(dict(run=i, case=case, log=out.get("log", [])[:40]))
-        agg["digests"].append((i, digest([case, out.get("log"), v, out.get("sig")])))
+        if COLLECT_DIGESTS:
+            agg["digests"].append((i, digest([case, out.get("log"), v, out.get("sig")])))
     faulthandler.cancel_dump_traceback_later()
     agg["cov"] = sorted(agg["cov"])
     agg["hist"] = sorted(agg["hist"])
